@@ -117,7 +117,7 @@ def quick_jobs(seed=0):
         for cfg in base_configs():
             for b in (0, 1):
                 jobs.append(dict(name=name, scen=scen, cfg=cfg, budget=b,
-                                 max_exec=1500 if b else 3000))
+                                 max_exec=6000))
     return jobs
 
 
@@ -271,10 +271,17 @@ def _check_c04(jobs, results, rep, tot):
         tot["c04_views"] += len(views)
         if len(views) > 1:
             items = list(views.items())
+            # reference view: one whose executions had no data-flow deviation at all
+            items.sort(key=lambda it: len(it[1][1].get("c03", [])))
             (v0, (j0, e0)) = items[0]
             for v1, (j1, e1) in items[1:]:
                 d = _first_diff(json.loads(v0), json.loads(v1))
-                cls = _classify_view_diff(j0["scen"], d)
+                # a view that deviates from a clean one only by inputs that the C03 monitor
+                # classified (root cause of a recorded finding) inherits that classifier
+                cls = None
+                if not e0.get("c03") and e1.get("c03") and "None" not in e1["c03"] \
+                        and len(e1["c03"]) == 1:
+                    cls = e1["c03"][0]
                 rep.report(
                     dict(prop="C04", kind="view-differs", cls=cls, sim=d[0] if d else None,
                          msg=f"{name}: {d} between [{_cfgs(j0['cfg'])}] and [{_cfgs(j1['cfg'])}]"),
@@ -303,5 +310,3 @@ def _first_diff(a, b):
     return None
 
 
-def _classify_view_diff(scen, d):
-    return None
